@@ -549,7 +549,9 @@ func faultTable() map[string]faultFn {
 		},
 		"missing-body-response": func(t *ftree) *injected {
 			m, _ := t.method()
-			rs := &model.RDir{Kind: "HTTP-response-code", Keyword: "298", Children: []*model.RDir{{Kind: "Headers", Keyword: "Headers", BodyKind: "schema", BodyLines: []string{"{", "  \"h\": \"v\"", "}"}}}}
+			// every class of response code, also those of which HTTP says that they carry no body: the language still wants one stated
+			code := []string{"298", "100", "101", "199", "204", "304", "205", "300", "418", "500", "599"}[t.r.Intn(11)]
+			rs := &model.RDir{Kind: "HTTP-response-code", Keyword: code, Children: []*model.RDir{{Kind: "Headers", Keyword: "Headers", BodyKind: "schema", BodyLines: []string{"{", "  \"h\": \"v\"", "}"}}}}
 			m.Children = append(m.Children, rs)
 			return &injected{class: "missing-body-response", off: rs, patterns: []string{"undefined response body for resource"}}
 		},
